@@ -60,7 +60,7 @@ def _load(pid: str):
 
 
 def _run_replays(mod, ctx, files) -> None:
-    from vfw.core import Violation
+    from vfw.core import Violation, as_violation
 
     for path in files:
         with open(path) as f:
@@ -73,6 +73,11 @@ def _run_replays(mod, ctx, files) -> None:
             ctx.record({"part": "replay", "file": os.path.basename(path)}, False, ["replay"])
         except Violation as e:
             ctx.add_violation(case, f"replay {os.path.basename(path)}: {e}")
+        except Exception as e:  # noqa: BLE001
+            v = as_violation(e)
+            if v is None:
+                raise
+            ctx.add_violation(case, f"replay {os.path.basename(path)}: {v}")
 
 
 def shard_main(args) -> int:
@@ -106,7 +111,7 @@ def shard_main(args) -> int:
 
 def replay_main(args) -> int:
     _bootstrap()
-    from vfw.core import Ctx, Violation
+    from vfw.core import Ctx, Violation, as_violation
 
     mod = _load(args.property)
     ctx = Ctx(mod.PID, "quick", int(os.environ.get("VERIF_SEED", "1")), 0, 1, 3600, replay_mode=True)
@@ -117,6 +122,13 @@ def replay_main(args) -> int:
         mod.replay(ctx, case)
     except Violation as e:
         print(f"replay failed: {e}")
+        print(f"VIOLATION property={mod.PID} replay={args.replay}")
+        return 1
+    except Exception as e:  # noqa: BLE001
+        v = as_violation(e)
+        if v is None:
+            raise
+        print(f"replay failed: {v}")
         print(f"VIOLATION property={mod.PID} replay={args.replay}")
         return 1
     finally:
